@@ -3,7 +3,9 @@
 
     (schema (schema Q M Sub (kind name (req…) ((f ty (req…) ((a ty)…) dep|-)…) (ifaces…) (members…) (values…) ((k ty)…) (deprecated values…))…))
         → (accepted true) | (accepted false)          -- sets the current schema
+    (directives (name ((a ty)…))…) → ok          -- directive definitions of the NEXT schema
     (erase (features…))   → (schema …) of `erase S F`
+    (erasedirs (features…)) → (directives …) of `erase S F`
     (view (features…))    → (view (types …) (query Q) (mutation M|-) (type N …)… (lk N …)… (gf T f …)… (sp P T b)…)
                             the accessors of `view S F` over the universe of S's type names + Nope + __Type
     (introspect (features…) erased|full <sels>)  → JSON text of the model's introspection answer
@@ -149,29 +151,36 @@ def viewSexp (S : Schema) (v : View) : Sexp :=
     | none => false
   let rcEntries := abstr.flatMap fun a => objs.map fun o =>
     Sexp.list [Sexp.atom "rc", Sexp.str a, Sexp.str o, Sexp.ofBool ((v.resolveCandidates a).contains o)]
+  let dirEntries := v.directivesListing.map fun d =>
+    Sexp.list [Sexp.atom "dir", Sexp.str d.name, argsSexp d.args]
+  let daEntries :=
+    (v.directivesListing.flatMap fun d => ("nope" :: d.args.map (·.name)).map fun a =>
+      Sexp.list [Sexp.atom "da", Sexp.str d.name, Sexp.str a,
+        Sexp.atom (match directiveCheck v d.name [a] with
+          | [] => "defined"
+          | _ => "undefined")])
+    ++ [Sexp.list [Sexp.atom "da", Sexp.str "nope", Sexp.str "x",
+          Sexp.atom (if directiveCheck v "nope" ["x"] == ["undefined directive"] then "nodirective" else "?")]]
   .list ([Sexp.atom "view",
           .list (Sexp.atom "types" :: v.typesListing.map Sexp.str),
           .list [Sexp.atom "query", Sexp.str v.queryType],
           .list [Sexp.atom "mutation", Sexp.str (v.mutationType.getD "-")],
           .list [Sexp.atom "subscription", Sexp.str (v.subscriptionType.getD "-")]]
-         ++ typeEntries ++ lkEntries ++ gfEntries ++ spEntries ++ rcEntries)
+         ++ typeEntries ++ lkEntries ++ gfEntries ++ spEntries ++ rcEntries ++ dirEntries ++ daEntries)
 
 def featsOf (xs : List String) : Feats := fun s => xs.contains s
 
 structure St where
   schema : Schema := { types := [], query := "", mutation := none, subscription := none }
-  /-- Set by `(roots filtered)`: the library under test has fix 04 (a mutation / subscription root type
-      whose features are disabled is treated as absent). Transitional switch: the theorems about the
-      filtered roots are in ApiFu/C13R until the fix is on /repo's main. -/
-  rootsFiltered : Bool := false
+  /-- directive definitions announced by `(directives …)`, attached to the next `(schema …)` -/
+  directives : List DirectiveDef := []
 
-/-- The view the ties use: as `view`, with the root types filtered by features when the library has fix 04. -/
-def viewFor (filtered : Bool) (S : Schema) (F : Feats) : View :=
-  if filtered then
-    { view S F with
-      mutationType := S.mutation.filter (S.visible F)
-      subscriptionType := S.subscription.filter (S.visible F) }
-  else view S F
+def parseDirective : Sexp → Option DirectiveDef
+  | .list [.atom n, args] => (parseArgs args).map fun a => { name := n, args := a }
+  | _ => none
+
+def dirsSexp (ds : List DirectiveDef) : Sexp :=
+  .list (Sexp.atom "directives" :: ds.map fun d => .list [Sexp.str d.name, argsSexp d.args])
 
 /-- The (schema, features) a request is evaluated against: `full` = (S, F), `erased` = (erase S F, ⊤). -/
 def pick (S : Schema) (F : Feats) (which : String) : Schema × Feats :=
@@ -180,32 +189,39 @@ def pick (S : Schema) (F : Feats) (which : String) : Schema × Feats :=
 def handle (st : St) (line : String) : St × String :=
   match Sexp.parse line with
   | some (.list [.atom "schema", s]) =>
-    match parseSchema s with
+    match (parseSchema s).map (fun S => { S with directives := st.directives }) with
     | some S =>
       ({ st with schema := S },
        "(accepted " ++ (if Accepted S then "true" else "false") ++ " " ++
          (if RootsUngated S then "rootsUngated" else "rootsGated") ++ ")")
     | none => (st, "bad-schema")
-  | some (.list [.atom "roots", .atom m]) => ({ st with rootsFiltered := m == "filtered" }, "ok")
+  | some (.list (.atom "directives" :: ds)) =>
+    match ds.mapM parseDirective with
+    | some d => ({ st with directives := d }, "ok")
+    | none => (st, "bad-op")
+  | some (.list [.atom "erasedirs", fs]) =>
+    match atoms fs with
+    | some f => (st, toString (dirsSexp (erase st.schema (featsOf f)).directives))
+    | none => (st, "bad-op")
   | some (.list [.atom "erase", fs]) =>
     match atoms fs with
     | some f => (st, toString (schemaSexp (erase st.schema (featsOf f))))
     | none => (st, "bad-op")
   | some (.list [.atom "view", fs]) =>
     match atoms fs with
-    | some f => (st, toString (viewSexp st.schema (viewFor st.rootsFiltered st.schema (featsOf f))))
+    | some f => (st, toString (viewSexp st.schema (view st.schema (featsOf f))))
     | none => (st, "bad-op")
   | some (.list [.atom "introspect", fs, .atom which, q]) =>
     match atoms fs, parseSels q with
     | some f, some sels =>
       let (S, F) := pick st.schema (featsOf f) which
-      (st, (introspect (viewFor st.rootsFiltered S F) sels).render)
+      (st, (introspect (view S F) sels).render)
     | _, _ => (st, "bad-op")
   | some (.list [.atom "walk", fs, .atom which, .atom root, q]) =>
     match atoms fs, parseSels q with
     | some f, some sels =>
       let (S, F) := pick st.schema (featsOf f) which
-      (st, toString (Sexp.list ((walk (viewFor st.rootsFiltered S F) (if root == "" then none else some root) sels).map eventSexp)))
+      (st, toString (Sexp.list ((walk (view S F) (if root == "" then none else some root) sels).map eventSexp)))
     | _, _ => (st, "bad-op")
   | _ => (st, "bad-op")
 
